@@ -196,6 +196,7 @@ def decide(pid, cfg, tier, seed, args):
         with open(assemble.SHAPES_PATH, 'w') as fo:
             json.dump(sh, fo, indent=0, sort_keys=True)
         baseline[pid] = sorted(n for n in names if n not in failing)
+        baseline.setdefault('__notes__', {})[pid] = sorted(set(meta.get('reanchored', [])))
         with open(bpath, 'w') as fo:
             json.dump(baseline, fo, indent=1, sort_keys=True)
     base = set(baseline.get(pid, []))
@@ -266,6 +267,25 @@ def decide(pid, cfg, tier, seed, args):
             undecided.append((q, errs))
             continue
         violations.append((f, errs))
+    # ---- second opinion before any Verus obligation is reported as violated: the same file under another solver seed and
+    # twice the resource limit; an obligation that is accepted there was rejected for a non-semantic reason (proof instability)
+    # and is reported as undecided, never as a violation
+    if violations:
+        r2 = verus.run(path, vmods, rlimit=rlimit * 2, seed=(seed * 31 + 17) % 1000003 + 1)
+        runs.append(r2)
+        if r2.ok:
+            failing2 = set()
+            for e in r2.errors:
+                f2 = attribute(fns, e['line']) if e['line'] else None
+                if f2 is not None:
+                    failing2.add(f2['qual'])
+            kept = []
+            for f, errs in violations:
+                if f['qual'] in failing2:
+                    kept.append((f, errs))
+                else:
+                    undecided.append((f['qual'], [{"text": "rejected under the default solver seed but accepted under another seed with twice the resource limit: unstable proof, undecided", "msg": "unstable"}]))
+            violations = kept
     # ---- a function whose woven proof no longer fits (pieces dropped or re-attached because their anchor, loop or closure
     # changed) and that no longer verifies is UNDECIDED, not a violation: the rejection may be the proof's, not the code's
     # (set VX_LENIENT=1 to report such rejections as violations, as bin/seedreport does to show both readings)
@@ -274,7 +294,10 @@ def decide(pid, cfg, tier, seed, args):
             return []
         fl = f['item']['file']
         w = "%s :: %s" % (fl[4:] if fl.startswith('src/') else fl, f['item']['sel'])
-        return [n for n in meta.get('reanchored', []) if n.startswith(w + ':')]
+        if f['item'].get('frag'):
+            w += "[%s]" % f['item']['frag']
+        base_notes = set((baseline.get('__notes__') or {}).get(pid, []))
+        return [n for n in meta.get('reanchored', []) if n.startswith(w + ':') and n not in base_notes]
     if not os.environ.get('VX_LENIENT'):
         kept = []
         for f, errs in violations:
